@@ -590,6 +590,17 @@ def sx_isinstance(o, cls):
     if (cls is int or cls is float or (_builtin_isinstance(cls, tuple) and (int in cls or float in cls))) \
             and _builtin_isinstance(o, SInt):
         return True
+    # module-level names such as `datetime`/`timedelta` are rebound to the proxies; real instances (table constants such
+    # as the tz offsets) must still satisfy the checks they satisfied before the rebinding
+    import datetime as _rdt
+    from . import dates as _dates
+    cl = cls if _builtin_isinstance(cls, tuple) else (cls,)
+    if _dates.STimedelta in cl and _builtin_isinstance(o, _rdt.timedelta):
+        return True
+    if _dates.SDateTime in cl and _builtin_isinstance(o, _rdt.date):
+        return True
+    if _dates.STime in cl and _builtin_isinstance(o, _rdt.time):
+        return True
     return _builtin_isinstance(o, cls)
 
 
